@@ -21,6 +21,7 @@ type verifAttempt struct {
 	method, url, header string
 	body                []byte
 	complete            bool // the declared body arrived in full
+	partial             bool // the connection was reset while the body was being sent: body holds what was sent until then
 	status              int  // 0: no response (transport error)
 }
 
@@ -29,7 +30,37 @@ type verifAttempt struct {
 type verifWire struct {
 	mu       sync.Mutex
 	attempts []verifAttempt
+	// resetBelow > 0 enables "connection reset in the middle of the upload":
+	// an attempt may die with a transport error after the transport has taken
+	// 0..resetBelow-1 bytes from the request body.
+	resetBelow int
 }
+
+// resetAfter draws whether this attempt is cut while its body is being sent,
+// and after how many body bytes (k == resetBelow: no reset).
+func (w *verifWire) resetAfter() (k int, reset bool) {
+	if w.resetBelow == 0 {
+		return 0, false
+	}
+	k = verif.Len("sent_before_reset", 0, w.resetBelow)
+	return k, k < w.resetBelow
+}
+
+// cut consumes k bytes of the request body, as a transport does whose
+// connection is reset at that point, and logs the attempt.
+func (w *verifWire) cut(req *http.Request, a verifAttempt, k int) error {
+	b := make([]byte, k)
+	n, _ := io.ReadFull(req.Body, b)
+	req.Body.Close()
+	if n > 0 {
+		a.body = b[:n]
+	}
+	a.partial, a.complete = true, false
+	w.attempts = append(w.attempts, a)
+	return errors.New("write tcp: connection reset by peer")
+}
+
+const verifNoTLS = "http: server gave HTTP response to HTTPS client"
 
 // answer draws the symbolic server behaviour for one attempt: no response
 // (connection dropped) or a final status code. 1xx codes are interim responses
@@ -58,8 +89,19 @@ type verifOpaqueReader struct{ r io.Reader }
 func (o verifOpaqueReader) Read(p []byte) (int, error) { return o.r.Read(p) }
 
 func (t *verifTransport) RoundTrip(req *http.Request) (*http.Response, error) {
+	if req.URL.Scheme == "https" {
+		// the server speaks plain http: the TLS handshake fails before any
+		// byte of the request is sent; nothing reaches the server
+		if req.Body != nil {
+			req.Body.Close()
+		}
+		return nil, errors.New(verifNoTLS)
+	}
 	a := verifAttempt{method: req.Method, url: req.URL.String(), header: req.Header.Get("X-Verif"), complete: true}
 	if req.Body != nil && req.Body != http.NoBody {
+		if k, reset := t.wire.resetAfter(); reset {
+			return nil, t.wire.cut(req, a, k)
+		}
 		b, err := io.ReadAll(req.Body)
 		req.Body.Close()
 		a.body = b
@@ -90,9 +132,18 @@ func (t *verifNativeRT) RoundTrip(req *http.Request) (*http.Response, error) {
 	t.wire.mu.Unlock()
 	hadBody := req.Body != nil && req.Body != http.NoBody
 	a := verifAttempt{method: req.Method, url: req.URL.String(), header: req.Header.Get("X-Verif"), complete: !hadBody}
+	if hadBody && req.URL.Scheme != "https" {
+		t.wire.mu.Lock()
+		k, reset := t.wire.resetAfter()
+		if reset {
+			defer t.wire.mu.Unlock()
+			return nil, t.wire.cut(req, a, k)
+		}
+		t.wire.mu.Unlock()
+	}
 	resp, err := t.inner.RoundTrip(req)
 	t.wire.mu.Lock()
-	if len(t.wire.attempts) == before {
+	if len(t.wire.attempts) == before && req.URL.Scheme != "https" {
 		t.wire.attempts = append(t.wire.attempts, a)
 	}
 	t.wire.mu.Unlock()
@@ -124,7 +175,55 @@ const (
 	verifBodyStringsReader
 	verifBodyOpaque
 	verifBodyKinds
+	verifBodySeeker = verifBodyKinds // only in VerifSendSeekerBodyRetry
 )
+
+// verifSeeker is a plain io.ReadSeeker over a byte stream: no Len, WriteTo or
+// other method through which net/http could learn the length or take a
+// snapshot (no GetBody, unknown ContentLength), like an *os.File-backed store
+// reader handed to Send in the middle of the stream.
+type verifSeeker struct {
+	data []byte
+	pos  int64
+}
+
+func (s *verifSeeker) Read(p []byte) (int, error) {
+	if s.pos >= int64(len(s.data)) {
+		return 0, io.EOF
+	}
+	n := copy(p, s.data[s.pos:])
+	s.pos += int64(n)
+	return n, nil
+}
+
+func (s *verifSeeker) Seek(off int64, whence int) (int64, error) {
+	abs := off
+	switch whence {
+	case io.SeekStart:
+	case io.SeekCurrent:
+		abs += s.pos
+	case io.SeekEnd:
+		abs += int64(len(s.data))
+	default:
+		return 0, errors.New("verifSeeker: invalid whence")
+	}
+	if abs < 0 {
+		return 0, errors.New("verifSeeker: negative position")
+	}
+	s.pos = abs
+	return abs, nil
+}
+
+func verifIsPrefix(p, b []byte) bool {
+	if len(p) > len(b) {
+		return false
+	}
+	r := true
+	for i := range p {
+		r = verif.And(r, p[i] == b[i])
+	}
+	return r
+}
 
 // non-forking helpers for the oracle
 func verifIn(x int, codes []int) bool {
@@ -149,7 +248,13 @@ func verifSameBytes(a, b []byte) bool {
 // verifSend drives Send with a symbolic body, header, accepted/extra-retry
 // code configuration and retry budget, and checks the statement on the
 // attempts seen by the transport.
-func verifSend(withBody, withRetry, allConfigs bool) {
+func verifSend(withBody, withRetry, allConfigs bool) { verifSendCfg(withBody, withRetry, allConfigs, false) }
+
+// seeker: the body is a verifSeeker over a symbolic stream, handed to Send at
+// a symbolic position (the original body is the rest of the stream); attempts
+// may additionally be cut by a connection reset in the middle of the upload,
+// and the request may go out as https with the http fallback enabled.
+func verifSendCfg(withBody, withRetry, allConfigs, seeker bool) {
 	verif.Option("panic_is_violation", 1) // a panic must never end a path silently
 	wire := &verifWire{}
 	rawurl := "http://origin:80/x/y?z=1"
@@ -162,7 +267,10 @@ func verifSend(withBody, withRetry, allConfigs bool) {
 	}
 	nmethods := verif.Bound("methods", 1, 6)
 	maxRetries := verif.Bound("max_retries", 2, 3)
-	if withBody && withRetry { // the largest product: keep its thorough tier affordable
+	if seeker {
+		nmethods = verif.Bound("methods_seeker_body", 1, 2)
+		maxRetries = verif.Bound("max_retries_seeker_body", 2, 2)
+	} else if withBody && withRetry { // the largest product: keep its thorough tier affordable
 		nmethods = verif.Bound("methods_with_body_and_retries", 1, 2)
 		maxRetries = verif.Bound("max_retries_with_body", 2, 2)
 	}
@@ -175,7 +283,24 @@ func verifSend(withBody, withRetry, allConfigs bool) {
 
 	var body []byte
 	kind := verifBodyNone
-	if withBody {
+	fallback, start := false, 0
+	if seeker {
+		kind = verifBodySeeker
+		stream := verif.Bytes("stream", verif.Len("stream_len", 1, verif.Bound("stream_len", 2, 3)))
+		start = verif.Len("body_start", 0, len(stream))
+		body = stream[start:]
+		rs := &verifSeeker{data: stream}
+		// the caller has consumed the front of the stream before calling Send
+		if _, err := io.CopyN(io.Discard, verifOpaqueReader{rs}, int64(start)); err != nil {
+			panic(err)
+		}
+		opts = append(opts, SendBody(rs))
+		wire.resetBelow = len(body)
+		if fallback = verif.Bool("https_with_http_fallback"); fallback {
+			// the URL becomes https://...; the server speaks plain http only
+			opts = append(opts, SendTLSTransport(tr), EnableHTTPFallback())
+		}
+	} else if withBody {
 		body = verif.Bytes("body", verif.Len("body_len", 1, verif.Bound("body_len", 2, 3)))
 		kind = 1 + verif.Choice("body_kind", verifBodyKinds-1)
 		switch kind {
@@ -212,7 +337,7 @@ func verifSend(withBody, withRetry, allConfigs bool) {
 		if budget > 0 {
 			ropts = []RetryOption{RetryBackoff(backoff.WithMaxRetries(backoff.NewConstantBackOff(time.Millisecond), uint64(budget)))}
 		}
-		if budget == 2 && verif.Bool("default_backoff") {
+		if budget == 2 && !seeker && verif.Bool("default_backoff") {
 			ropts = nil // SendRetry's own default: 2 retries
 		}
 		// extra retry codes; a code that is both accepted and retried is a
@@ -234,6 +359,12 @@ func verifSend(withBody, withRetry, allConfigs bool) {
 	if withRetry {
 		verif.Cover("retried", n >= 2)
 	}
+	if seeker {
+		verif.Cover("retried-body-from-nonzero-start", n >= 2 && len(body) > 0 && start > 0)
+		verif.Cover("retried-after-reset-mid-body", n >= 2 && wire.attempts[0].partial)
+		verif.Cover("retried-with-http-fallback", n >= 2 && fallback)
+		verif.Cover("success-after-retry", n >= 2 && err == nil)
+	}
 	verif.Cover("success", err == nil)
 	verif.Cover("status-error", err != nil && !IsNetworkError(err))
 	verif.Cover("network-error", IsNetworkError(err))
@@ -253,7 +384,13 @@ func verifSend(withBody, withRetry, allConfigs bool) {
 		verif.Assert("same-method", a.method == method)
 		verif.Assert("same-url", a.url == rawurl)
 		verif.Assert("same-header", a.header == hdr)
-		verif.Assert("complete-original-body", verif.And(a.complete, verifSameBytes(a.body, body)))
+		if a.partial {
+			// the network cut the attempt: what was sent until then is the
+			// beginning of the original body
+			verif.Assert("complete-original-body", verifIsPrefix(a.body, body))
+		} else {
+			verif.Assert("complete-original-body", verif.And(a.complete, verifSameBytes(a.body, body)))
+		}
 		if i < n-1 {
 			verif.Assert("accepted-code-never-retried", !verifIn(a.status, accepted))
 		}
@@ -266,6 +403,14 @@ func VerifSendNoBody() { verifSend(false, true, true) }
 
 // VerifSendBodyNoRetry: requests with every body kind, single attempt.
 func VerifSendBodyNoRetry() { verifSend(true, false, true) }
+
+// VerifSendSeekerBodyRetry: the body is a plain io.ReadSeeker positioned at a
+// symbolic offset of its stream; retries after statuses, dropped connections
+// and resets in the middle of the upload, and the https->http fallback, must
+// all resend the stream from that offset to its end.
+func VerifSendSeekerBodyRetry() {
+	verifSendCfg(true, true, verif.Bound("all_code_sets_with_seeker_bodies", 0, 1) == 1, true)
+}
 
 // VerifFindingSendBodyRetry: requests with a body and a retry budget (see
 // FINDINGS.md).
